@@ -366,6 +366,11 @@ class Engine:
         sp = SPECS[name]
         inst_key, inst_env, call_args = [name], {}, []
         for (pn, pt), a in zip(sp.params, args):
+            if pt.startswith("$"):            # scalar instance parameter (fixed per instance, e.g. a half-width)
+                z = toz(num_of_bool(a))
+                inst_key.append(z.get_id())
+                inst_env[pn] = a
+                continue
             ty = parse_type(pt)
             if ty[0] == "arr":
                 arr = self.deref(a, st)
